@@ -201,7 +201,8 @@ def run_harness(crate, tdir, entry, src):
     return r
 
 
-def run_all(scratch, entries, jobs=14, mem_budget_gb=54, log=print):
+def run_all(scratch, entries, jobs=14, mem_budget_gb=None, log=print):
+    mem_budget_gb = mem_budget_gb or int(os.environ.get("VERIF_MEM_BUDGET_GB", "54"))
     """entries: registry records.  Returns {harness: result}; uses the content-addressed cache."""
     srcs = harness_sources()
     rh = repo_hash()
